@@ -144,6 +144,17 @@ class HistRunner:
                 p.watch[w] = 0 if p.watch[w] is None else p.watch[w] + 1
             p.write_watch(self.top, w, self.clock)
             m.touch_src(w)
+        elif k == 'chmod':
+            # the user changes the mode of a generated file: same bytes, size and mtime; the stamp redo recorded no longer matches
+            n = op[1]
+            fp = self.path(n)
+            t = p.targets.get(n, {})
+            if n in p.user or t.get('phony') or t.get('linkout') or not os.path.isfile(fp) or os.path.islink(fp) or not m.R[n].built or m.R[n].owner == 'user':
+                return False
+            st = os.stat(fp)
+            os.chmod(fp, (st.st_mode & 0o777) ^ 0o044)
+            os.utime(fp, ns=(st.st_atime_ns, st.st_mtime_ns))
+            m.R[n].meta_changed = True
         elif k == 'watch_during':
             # the watched path comes into existence while the script that declared it with redo-ifcreate is still running
             # (right before the script ends): the file is parked next to it and the script moves it into place
